@@ -318,6 +318,23 @@ def generate(seed, prop):
                         {"op": "construct", "cls": cls, "args": short_args},
                         {"op": "save", "i": -1, "path": path, "via": "method"},
                         {"op": rng.choice(["load_new", "dispatch_read"]), "path": path, "i": -1}]
+    if rng.random() < 0.15:
+        # biased schedule: a is saved, b (same class, values of the same printed length) is saved under the same name, a is
+        # saved there again - unchanged - and the file is loaded: it must hold a
+        cls = rng.choice(CLASSES)
+        if cls in PRE:
+            a1 = {"window_length_in_seconds": 60.0, "detrend": "linear"}
+            a2 = {"window_length_in_seconds": 30.0, "detrend": "linear"}
+        else:
+            a1 = {"window_type_and_width": {"t": "list", "v": ["tukey", 0.1]}}
+            a2 = {"window_type_and_width": {"t": "list", "v": ["tukey", 0.2]}}
+        path = "/simfs/s/" + rng.choice(["a", "b", "c"]) + ".json"
+        via = rng.choice(["method", "function"])
+        pos = rng.randint(0, len(ops))
+        ops[pos:pos] = [{"op": "construct", "cls": cls, "args": a1}, {"op": "construct", "cls": cls, "args": a2},
+                        {"op": "save", "i": -2, "path": path, "via": via}, {"op": "save", "i": -1, "path": path, "via": via},
+                        {"op": "save", "i": -2, "path": path, "via": via},
+                        {"op": rng.choice(["load_new", "dispatch_read"]), "path": path, "i": -1}]
     return {"machine": "settings", "property": prop, "run_seed": int(seed),
             "config": {"weights": w, "fault_rate": fault_rate, "focus": focus},
             "world": {"records": {"k": rng.randrange(1 << 30), "n": 1001, "rate": 100}}, "ops": ops, "faults": []}
